@@ -572,14 +572,14 @@ def build(ov):
                     raise CutError('impl block not found: ' + hdr)
                 for bl in blocks:
                     items.append((hdr, S.src[bl['start']:bl['end']], '%s:%d' % (src_rel, bl['line']), 'impl'))
-            elif spec.startswith('impl '):
-                hdr, _, names = spec.partition('::')
+            elif spec.startswith('impl ') or spec.startswith('impl<'):
+                hdr, _, names = spec.partition(' :: ')
                 hdr = hdr.strip()
                 names = names.split()
                 blocks = S.find_impls(hdr)
                 if not blocks:
                     raise CutError('impl block not found: ' + hdr)
-                ty = re.sub(r'^impl(<[^>]*>)?\s+', '', hdr)
+                ty = re.sub(r'^impl(<[^>]*>)?\s*', '', hdr)
                 ty = ty.split(' for ')[-1]
                 ty = re.sub(r'<.*$', '', ty).strip()
                 parts = []
